@@ -614,7 +614,7 @@ func init() {
 		batches: []batch{{name: "pauses", quick: 2400, thorough: 60000},
 			{name: "pauseread", params: map[string]string{"pauseread": "1"}, quick: 1500, thorough: 40000},
 			{name: "enumerated", quick: 4, thorough: 120, enumKinds: 6, enumPos: 1, enumBases: 120}},
-		rule:    "each evaluation is one simulated transfer (protocol 3 or 4, T in {2,5,20} s) paused 1-3 times at tape-chosen messages by Ctrl-C and continued through the real prompt after a think time of 0.02T..3T; non-trivial = at least one pause/continue cycle completed and the outcome rules (short pause => success with identical files; long pause => success or error, never a hang or a wrong file) and the no-data-while-paused monitor were evaluated; distinct = distinct (configuration + pause band + cycles, schedule-trace hash, tape hash)"})
+		rule:    "each evaluation is one simulated transfer (protocol 3 or 4, T in {2,5,20} s) paused 1-3 times at tape-chosen messages by Ctrl-C and continued through the real prompt after a think time of 0.02T..3T; non-trivial = at least one pause/continue cycle completed and the outcome rules (short pause => success with identical files; long pause => success or error, never a hang or a wrong file) and the no-data-while-paused monitor were evaluated; batch pauseread: a real trzszTransfer (protocol 3/4, T in {1,2,5,20} s, plain, tmux-junk or Windows reader) whose consumer task calls recvCheckV2 while a producer task delivers 0-2 whole lines, then k bytes of a line (k = 0..len-1), opens the question after a lead, answers after a pause and delivers the rest after a further delay (each a fraction of T below 1, 1-2 cycles); oracle: every line is returned whole and without error, whether the deadline of the pending read runs out while the question is open or after the answer; distinct = distinct (configuration + pause band + cycles, schedule-trace hash, tape hash)"})
 	reg(&propDef{id: "C03", level: "exploration", crashIsViol: true,
 		batches: []batch{{name: "buffer", quick: 3000, thorough: 120000},
 			{name: "pumps", params: map[string]string{"pumps": "1"}, quick: 500, thorough: 15000}},
